@@ -427,7 +427,7 @@ def P(theorems, text, rule, status, **kw):
 
 
 PROPS = {
-    "C01": P(["C01_mapper", "C01_mapper_file", "C01_cache", "C01_index_irrelevant", "C01_unknown_class", "C01_terminator_style", "C01_noise_line", "C01_block_order_irrelevant", "C01_spec_shape", "C01_spec_applies", "C01_spec_range_offset", "C01_file_records", "C01_file_independent"],
+    "C01": P(["C01_mapper", "C01_mapper_file", "C01_cache", "C01_index_irrelevant", "C01_unknown_class", "C01_terminator_style", "C01_noise_line", "C01_block_order_irrelevant", "C01_spec_shape", "C01_spec_applies", "C01_spec_range_offset", "C01_file_records", "C01_file_independent", "C01_synthetic_file_shapes", "C01_synthetic_file_no_separator", "C01_synthetic_file_dollar_first"],
              "Theorems: the mapper model returns exactly the declarative specification Sline for every record list "
              "(all classes, methods, lines, files), with or without parameter index; the records - hence the answer - "
              "do not depend on terminator style or unparseable lines. Mapper, mapper-without-index and cache of the "
